@@ -187,7 +187,7 @@ def gen_case(rnd, i=0):
         if a['type'] == 'OrderBook' and rnd.random() < 0.5:
             a['df_orders'] = True
         if a['type'] == 'ScaledAsset' and rnd.random() < 0.6:
-            # the scaled asset's OWN life time (the duration its fixed costs are charged for)
+            # the scaled asset's OWN life time (the duration its fixed costs are charged for and, since fix F-08f, a restriction of the base's window)
             gen.put_window(a['args'], gen.window(rnd, g, kinds=['inside', 'start_only', 'end_only', 'straddle_end', 'straddle_start']))
             a['args']['fix_costs'] = max(0.125, a['args'].get('fix_costs', 0))
     if extra == 1:
